@@ -272,13 +272,50 @@ func (e *Engine) copyElems(s *State, dst, src *SliceV, x *ssa.Call) []*State {
 	n := int(min(dst.Len.Val, src.Len.Val))
 	d, so := s.heap[dst.Obj], s.heap[src.Obj]
 	tmp := append([]Value{}, so.E[int(src.Off.Val):int(src.Off.Val)+n]...)
+	d.ownE()
 	copy(d.E[int(dst.Off.Val):], tmp)
 	setRes(s, x, CI(int64(n)))
 	return nil
 }
 
+func ubOfConst(t *Term) (int64, bool) {
+	if t.IsConst() {
+		return int64(t.Val), true
+	}
+	return 0, false
+}
+
 func (e *Engine) appendSlice(s *State, a, b *SliceV, t types.Type, site string) Value {
 	el := t.Underlying().(*types.Slice).Elem()
+	// Go appends in place while the capacity suffices: the result then shares the backing array with every other
+	// slice of it (a block that is re-sliced to [:0] and refilled hands out the same elements again). Modelled
+	// exactly when the geometry is concrete; otherwise (and when the capacity is exhausted) a fresh array with
+	// cap == len, i.e. sharing created by the runtime's over-allocation on growth is not modelled.
+	if a.Obj != 0 && a.Off.IsConst() && a.Len.IsConst() && a.Cap.IsConst() && b.Len.IsConst() && (b.Obj == 0 || b.Off.IsConst()) &&
+		a.Len.Val+b.Len.Val <= a.Cap.Val && b.Len.Val > 0 {
+		o := s.heap[a.Obj]
+		at := int(a.Off.Val + a.Len.Val)
+		nb := int(b.Len.Val)
+		if o.Kind == kElems && !isByteElem(el) && at+nb <= len(o.E) {
+			src := s.heap[b.Obj]
+			e.access(s, a.Obj, true, site)
+			vals := make([]Value, nb)
+			for i := 0; i < nb; i++ {
+				vals[i] = src.E[int(b.Off.Val)+i]
+			}
+			o.ownE()
+			copy(o.E[at:], vals)
+			return &SliceV{Obj: a.Obj, Off: a.Off, Len: CI(int64(a.Len.Val + b.Len.Val)), Cap: a.Cap, View: a.View, Epoch: a.Epoch}
+		}
+		if (o.Kind == kBytes || o.Kind == kBuffer) && isByteElem(el) {
+			if L, ok := ubOfConst(o.B.Len); ok && int64(at+nb) <= L {
+				bb := SliceBytes(s.heap[b.Obj].B, b.Off, Add(b.Off, b.Len))
+				e.access(s, a.Obj, true, site)
+				o.B = OverwriteBytes(o.B, CI(int64(at)), bb)
+				return &SliceV{Obj: a.Obj, Off: a.Off, Len: CI(int64(a.Len.Val + b.Len.Val)), Cap: a.Cap, View: a.View, Epoch: a.Epoch}
+			}
+		}
+	}
 	if isByteElem(el) {
 		var ab, bb *Bytes = EmptyBytes(), EmptyBytes()
 		if a.Obj != 0 {
@@ -546,7 +583,7 @@ func (e *Engine) dispatch(s *State, f *Frame, fn *ssa.Function, args []Value, bi
 			s.panicd = "nil *bytes.Buffer at " + site
 			return nil
 		}
-		set(&SliceV{Obj: id, Off: o.R, Len: unreadLen(o), Cap: unreadLen(o), View: id, Epoch: o.Epoch})
+		set(&SliceV{Obj: id, Off: o.R, Len: unreadLen(o), Cap: Add(unreadLen(o), e.spareCap(s, o)), View: id, Epoch: o.Epoch})
 	case "(*bytes.Buffer).String":
 		o, _ := bufObj(s, args[0])
 		if o == nil {
@@ -590,7 +627,8 @@ func (e *Engine) dispatch(s *State, f *Frame, fn *ssa.Function, args []Value, bi
 		}
 		o, id = bufObj(s, args[0])
 		m := Ite(Lt(unreadLen(o), n, true), unreadLen(o), n)
-		set(&SliceV{Obj: id, Off: o.R, Len: m, Cap: m, View: id, Epoch: o.Epoch})
+		// b.buf[off:off+m]: the capacity reaches to the end of the backing array
+		set(&SliceV{Obj: id, Off: o.R, Len: m, Cap: Add(unreadLen(o), e.spareCap(s, o)), View: id, Epoch: o.Epoch})
 		o.R = Add(o.R, m)
 		return forks
 	case "(*bytes.Buffer).ReadByte":
@@ -1174,6 +1212,7 @@ func (e *Engine) binaryRead(s *State, f *Frame, args []Value, x *ssa.Call, site 
 		}
 		return e.readFork(s, f, id, CI(int64(cnt*ew)), func(st *State, data *Bytes) {
 			dd := st.heap[v.Obj]
+			dd.ownE()
 			for k := 0; k < cnt; k++ {
 				bs := make([]*Term, ew)
 				for i := range bs {
